@@ -66,7 +66,7 @@ def make_project(seed, nfiles, dup=False):
         if layout == 1 and nfiles > 1:
             paths.append("%scommands.rs" % ["", "users/", "orders/", "billing/", "admin/", "reports/", "x/y/"][i % 7])
         elif layout == 2 and nfiles > 1:
-            paths.append(["mod.rs", "users/mod.rs", "orders/mod.rs", "orders/handlers.rs", "users/handlers.rs", "billing/mod.rs", "z/mod.rs"][i % 7])
+            paths.append(["jobs.rs", "jobs/worker.rs", "mod.rs", "users/mod.rs", "orders/mod.rs", "orders/handlers.rs", "users/handlers.rs", "billing/mod.rs", "z/mod.rs"][i % 9])
         else:
             d = ["", "commands/", "models/", "commands/nested/", "dist/", "node_modules/pkg/", "build/"][i % 7] if nfiles > 1 else ""
             paths.append("%sf%d.rs" % (d, i))
@@ -193,9 +193,20 @@ def make_project(seed, nfiles, dup=False):
         decls[rng.pick(paths)].append("pub fn notify_helper_%d(app: &AppHandle) {\n    app.emit(\"%s\", %s).ok();\n}\n" % (
             h, ev, rng.pick(['"x"', "1u32", "true"])))
         meta["events"].append(ev)
+    if layout == 2 and nfiles >= 2:
+        # events from a file and from the directory of the same stem (`jobs.rs`, `jobs/worker.rs`: path order and string
+        # order of the two differ)
+        decls[paths[0]].append("pub fn announce_top(app: &AppHandle) {\n    app.emit(\"jobs-top\", 1u32).ok();\n}\n")
+        decls[paths[1]].append("pub fn announce_worker(app: &AppHandle) {\n    app.emit(\"jobs-worker\", true).ok();\n}\n")
+        meta["events"] += ["jobs-top", "jobs-worker"]
     if late_pair is not None:
         decls[late_pair].append("#[cfg(desktop)]\n#[tauri::command]\npub fn open_settings(tab: String) -> Result<(), String> {\n    todo!()\n}\n")
         decls[late_pair].append("#[cfg(mobile)]\n#[tauri::command]\npub fn open_settings(tab: String, sheet: bool) -> Result<(), String> {\n    todo!()\n}\n")
+    if seed % 5 == 0 and nfiles >= 2:
+        # two event names that differ only in `-` / `_`, emitted from different files
+        decls[paths[0]].append("pub fn sync_a(app: &AppHandle) {\n    app.emit(\"sync-finished\", 1u8).ok();\n}\n")
+        decls[paths[-1]].append("pub fn sync_b(app: &AppHandle) {\n    app.emit(\"sync_finished\", \"done\").ok();\n}\n")
+        meta["events"] += ["sync-finished", "sync_finished"]
     for p in paths:
         files[p] = decls[p]
     return {"files": files, "meta": meta, "header": HEADER}
